@@ -175,7 +175,13 @@ Definition strings_small (schema : list bytes) (cfg : ser_config) (rec : record)
 Definition schema_ok (schema : list bytes) : Prop :=
   NoDup schema /\ Forall (fun n => n <> []) schema.
 
-(* a configuration the serializer can be built from: accepted by VerifyConfig, and its environment fields exist
-   (VerifyConfig does not check the latter; NewEventSerializer then returns an error - the subject of C16) *)
+(* a configuration the serializer is built from: accepted by VerifyConfig (which checks the environment, hidden
+   and rewritten fields against the schema and the rewriter chains) *)
 Definition config_ok (schema : list bytes) (cfg : ser_config) : Prop :=
-  verify_config schema cfg = true /\ Forall (fun n => In n schema) (c_env cfg).
+  verify_config schema cfg = true.
+
+(* every configured rewriter chain passes VerifyRewriterConfigs.  This is the part of VerifyConfig the serializer's
+   correctness rests on (VerifyConfig implies it); it does not ask for a non-empty environment list, so
+   serializers built directly with NewEventSerializer from a configuration without environment fields are covered *)
+Definition chains_ok (schema : list bytes) (cfg : ser_config) : Prop :=
+  forall name ch, lookup_rewrite (c_rewrite cfg) name = Some ch -> verify_rewriters schema ch = true.
